@@ -143,6 +143,26 @@ theorem partial_roundtrip {σ : Type} {K : Core σ} {M : Nat} {ks : Nat → Byte
   rw [e2, hl, e1]
   exact xorB_cancel_right data _ (by simp)
 
+/-! ### every unpadded operation produces exactly as many bytes as it was given (generic) -/
+
+/-- **every block-level call sequence returns exactly as many blocks as it was given** — any mode whose many-block entry point
+    is the fold of its single-block step (all twelve directions: C02/C03 `*_fold`, `*_eq_fold` lemmas), any mixture of calls. -/
+theorem blocks_count_preserved {σ : Type} (step : σ → Bytes → Bytes × σ) (blocksFn : σ → List Bytes → List Bytes × σ)
+    (h : ∀ s l, blocksFn s l = foldBlocks step s l) (s : σ) (calls : List Call) :
+    (runMixed step blocksFn s calls).1.length = (fed calls).length := by
+  rw [runMixed_fold step blocksFn h, foldBlocks_length]; rfl
+
+/-- … and exactly as many *bytes*: when the single-block step keeps the block length on the states reachable from `s`
+    (`StepOk`; instances for every backend body are the `*_stepOk` lemmas used by C12), the output has the input's byte length. -/
+theorem bytes_count_preserved {σ : Type} (P : σ → Prop) (bs : Nat) (step : σ → Bytes → Bytes × σ)
+    (hstep : Impl.MemCts.StepOk P step bs) (blocksFn : σ → List Bytes → List Bytes × σ)
+    (h : ∀ s l, blocksFn s l = foldBlocks step s l) (s : σ) (hs : P s) (calls : List Call) (hm : AllLen bs (fed calls)) :
+    (runMixed step blocksFn s calls).1.flatten.length = (fed calls).flatten.length := by
+  rw [runMixed_fold step blocksFn h]
+  show (foldBlocks step s (fed calls)).1.flatten.length = _
+  rw [Impl.MemCts.foldBlocks_flatten_length P step bs hstep _ s hs hm, flatten_length_of_allLen bs _ hm]
+
+
 /-! ### padded (PKCS#7) -/
 
 /-- the generic statement is `Glue.padded_roundtrip` (any block mode whose decrypt fold inverts its encrypt fold);
